@@ -21,12 +21,16 @@
 EXTENDS Integers, Sequences, FiniteSets, TLC, Json
 
 CONSTANTS Max,          \* SetMaxMessageSize
+          Ops,          \* message types the peer uses: subset of {"text","binary"}
+          CtlOps,       \* control frames the peer interleaves: subset of {"ping","pong"}
           Lens,         \* payload lengths of data frames
           CtlLens,      \* payload lengths of control frames
           MaxMsgs, MaxFrags, MaxCtl, MaxFrames, MaxInFlight,
           Apis,         \* subset of {"NF","NM"}: frame-level / message-level read API
           Viols,        \* violation classes the peer may inject (at most one per history)
           VLens,        \* payload lengths used for violating frames
+          PairConf,     \* TRUE: two conforming frames may be in flight together (FALSE: the second
+                        \* frame in flight is the violating one or the one right after it)
           MaxHist,      \* generation: forced Finish (0 = none)
           BUG_CtlResetsCont,   \* model mutation: a control frame between fragments clears `continuation`
           BUG_ConsumeShort     \* model mutation: the lazy consume forgets the extended length bytes
@@ -88,28 +92,27 @@ Frame(fid, op, fin, len, mk, viol) == [fid |-> fid, op |-> op, fin |-> fin, len 
 
 InMsg == pfrags > 0
 
-\* conforming choices in the current context: <<op, fin, len>>
-ConfData ==
-  IF InMsg THEN
-     {<<"cont", f, l>> : f \in (IF pfrags >= MaxFrags - 1 THEN {1} ELSE {0, 1}),
-                          l \in {x \in Lens : psum + x <= Max}}
-  ELSE IF pmsgs < MaxMsgs THEN
-     {<<o, f, l>> : o \in {"text", "binary"}, f \in (IF MaxFrags > 1 THEN {0, 1} ELSE {1}), l \in Lens}
+\* conforming data frame shapes <<op, fin>> in the current context
+ConfShapes ==
+  IF InMsg THEN {<<"cont", f>> : f \in (IF pfrags >= MaxFrags - 1 THEN {1} ELSE {0, 1})}
+  ELSE IF pmsgs < MaxMsgs THEN {<<o, f>> : o \in Ops, f \in (IF MaxFrags > 1 THEN {0, 1} ELSE {1})}
   ELSE {}
-ConfCtl == IF pctl < MaxCtl THEN {<<o, 1, l>> : o \in {"ping", "pong"}, l \in CtlLens} ELSE {}
+\* conforming choices <<op, fin, len>>
+ConfData == {<<sh[1], sh[2], l>> : sh \in ConfShapes, l \in {x \in Lens : psum + x <= Max}}
+ConfCtl == IF pctl < MaxCtl THEN {<<o, 1, l>> : o \in CtlOps, l \in CtlLens} ELSE {}
 
-VData == {c \in ConfData : c[3] \in VLens}
-VCtl  == {<<"ping", 1, l>> : l \in (CtlLens \cap VLens)}
+VData == {<<sh[1], sh[2], l>> : sh \in ConfShapes, l \in {x \in VLens : psum + x <= Max}}
+VCtl  == {<<o, 1, l>> : o \in CtlOps, l \in (CtlLens \cap VLens)}
 
 \* violating choices: <<op, fin, len, mk, viol>>
 ViolChoices ==
   (IF "rsv" \in Viols THEN {<<c[1], c[2], c[3], 0, "rsv">> : c \in VData \cup VCtl} ELSE {})
   \cup (IF "masked" \in Viols THEN {<<c[1], c[2], c[3], 1, "masked">> : c \in VData \cup VCtl} ELSE {})
   \cup (IF "resop" \in Viols THEN {<<o, 1, l, 0, "resop">> : o \in {"res3", "resB"}, l \in (VLens \cap CtlLens)} ELSE {})
-  \cup (IF "fragctl" \in Viols THEN {<<o, 0, l, 0, "fragctl">> : o \in {"ping", "pong"}, l \in (VLens \cap CtlLens)} ELSE {})
-  \cup (IF "bigctl" \in Viols THEN {<<o, 1, 126, 0, "bigctl">> : o \in {"ping", "pong"}} ELSE {})
+  \cup (IF "fragctl" \in Viols THEN {<<o, 0, l, 0, "fragctl">> : o \in CtlOps, l \in (VLens \cap CtlLens)} ELSE {})
+  \cup (IF "bigctl" \in Viols THEN {<<o, 1, 126, 0, "bigctl">> : o \in CtlOps} ELSE {})
   \cup (IF "contnostart" \in Viols /\ ~InMsg THEN {<<"cont", f, l, 0, "contnostart">> : f \in {0, 1}, l \in VLens} ELSE {})
-  \cup (IF "newdata" \in Viols /\ InMsg THEN {<<o, f, l, 0, "newdata">> : o \in {"text", "binary"}, f \in {0, 1}, l \in VLens} ELSE {})
+  \cup (IF "newdata" \in Viols /\ InMsg THEN {<<o, f, l, 0, "newdata">> : o \in Ops, f \in {0, 1}, l \in VLens} ELSE {})
   \cup (IF "frame-over-max" \in Viols THEN {<<c[1], c[2], Max + 1, 0, "frame-over-max">> : c \in VData} ELSE {})
   \cup (IF "msg-over-max" \in Viols /\ InMsg
           THEN {<<"cont", f, l, 0, "msg-over-max">> : f \in {0, 1}, l \in {x \in Lens : psum + x > Max}} ELSE {})
@@ -128,6 +131,7 @@ SendFrame(fr) ==
 
 PeerConf ==
   /\ CanSend
+  /\ (PairConf \/ pviol \/ Len(fl) = (IF dreset THEN 1 ELSE 0))
   /\ \E c \in ConfData \cup ConfCtl :
        /\ SendFrame(Frame(nfid + 1, c[1], c[2], c[3], 0, ""))
        /\ IF c[1] \in {"ping", "pong"}
